@@ -57,6 +57,22 @@ pub enum EOp {
     MulBigint(usize, Vec<u64>),
     /// Sum over iterator of these entries
     SumOf(Vec<usize>),
+    /// VariableBaseMSM::msm over (affine bases, scalars given as 32 LE bytes each)
+    Msm(Vec<usize>, Vec<Hex>),
+    /// Element::vartime_multiscalar_mul
+    MultiscalarMul(Vec<usize>, Vec<Hex>),
+    /// AffineRepr::clear_cofactor
+    ClearCofactor(usize),
+    /// AffineRepr::mul_by_cofactor_to_group
+    MulByCofactorToGroup(usize),
+    /// AffineRepr::mul_bigint
+    AffineMulBigint(usize, Vec<u64>),
+    /// -AffinePoint, AffinePoint * Fr, Element + AffinePoint
+    AffineNeg(usize),
+    AffineMulFr(usize, Hex),
+    AddAffine(usize, usize),
+    /// AffineRepr::into_group / From<&AffinePoint> for Element
+    IntoGroup(usize),
 }
 
 #[derive(Clone, Debug, Serialize, Deserialize, PartialEq, Eq)]
